@@ -48,5 +48,23 @@ class RuleGen:
             l.kwargs[k] = p
         return cond
 
+    def sibling(self, rt, doc, cast_p=0.0):
+        """A rule whose path is that of `rt` (or the same path with one key / index replaced by an equal value of
+        another type: 1 / 1.0 / True): rules of one schema must be judged independently even when their paths
+        are equal or hash-equal."""
+        parts = list(rt.path.parts)
+        prims = [i for i, p in enumerate(parts) if isinstance(p, Prim)]
+        if prims and self.r.random() < 0.7:
+            i = self.r.choice(prims)
+            parts[i] = Prim(self.g.twin(parts[i].v))
+        pt = PathT(parts, list(rt.path.mods))
+        sel = self.selected(pt, doc)
+        cond = self.cg.tree([x for x in sel] or [1, "a"], depth=self.r.choice([0, 1]), classes=VALUE_CLASSES, null_p=0.05)
+        cast = [self.r.choice(["bool", "int"])] if self.r.random() < cast_p else []
+        return RuleT(pt, cond, cast)
+
     def schema(self, doc, n_rules, cast_p=0.0):
-        return [self.rule(doc, cast_p=cast_p) for _ in range(n_rules)]
+        rules = [self.rule(doc, cast_p=cast_p) for _ in range(n_rules)]
+        if rules and self.r.random() < 0.3:
+            rules.insert(self.r.randint(0, len(rules)), self.sibling(self.r.choice(rules), doc, cast_p))
+        return rules
